@@ -84,6 +84,11 @@ static void child_run(void *ud) {
     sim_shared->aux[1] = 1; snprintf(sim_shared->note, sizeof sim_shared->note, "unknown line: %.100s", p); return;
   }
   if (nworlds < 1) nworlds = 1;
+  { /* a destination with world-dependent prior content is only meaningful together with the call that overwrites it (the shrinker may drop lines) */
+    int junk = 0, ops = 0;
+    for (int i = 0; i < nl; i++) if (kinds[i] == 'b') { if (strstr(lines[i], " junk ")) junk = 1; if (!strncmp(lines[i], "op ", 3)) ops++; }
+    if (junk && !ops) { sim_shared->aux[1] = 1; snprintf(sim_shared->note, sizeof sim_shared->note, "skip probe: junk destination without a call"); return; }
+  }
   uint64_t out0 = 0;
   int have0 = 0;
   for (int k = 0; k < nworlds && !viol; k++) {
